@@ -74,6 +74,12 @@ def _expand(task):
                     f'replay of {hist!r} diverged from its recorded key')
             ops = _ordered(driver.ops(ctx))
         except Violation as v:
+            if v.features.get('isolation'):
+                # an explicit isolation probe of the driver (fresh objects
+                # must not inherit state from earlier, unrelated objects)
+                out.append(('viol', hist, ('<fresh objects>',),
+                            (v.clause, v.detail, v.features)))
+                continue
             out.append(('harness', hist, None,
                         f'violation while replaying a clean prefix: {v}'))
             continue
@@ -128,8 +134,16 @@ def explore(driver, rep, part=None, max_depth=None, max_states=None,
     _DRIVER = driver
     cover.start()
 
-    ctx0 = driver.initial()
-    driver.check(ctx0)
+    try:
+        ctx0 = driver.initial()
+        driver.check(ctx0)
+    except Violation as v:
+        # the property already fails on freshly built objects
+        rep.violation(part, v, [], params)
+        rep.add_part(part, 1, 1, 0, exhaustive=False,
+                     caps=['violation in the initial state: not explored'],
+                     params=params or {})
+        return dict(states=1, transitions=1)
     k0 = digest(driver.key(ctx0))
     # determinism self-check of the initial state
     if digest(driver.key(driver.initial())) != k0:
